@@ -49,3 +49,10 @@ claim("C13", "DESIGN.md 5/C13",
       "round trip, with a symbolic line address, and on renderings of the bytes in both I/O-drawer formats with "
       "symbolic digit case, cut or padded last line and an inserted comment/blank line; oracle: one line per started "
       "line, equal widths, offset prefix, parse(dump) == bytes. 100 cases, each 'Confirmed over all paths'.")
+
+claim("C06", "DESIGN.md 5/C06",
+      "prettyPrint is executed on the json.dumps(indent=4) line grammar of five document shapes whose keys (length 1..3, "
+      "19 class patterns over quote / backslash / non-ASCII / structural characters) and string values (length 0..2, "
+      "all characters symbolic over the adversarial alphabet) are symbolic, for both column widths the tool uses; "
+      "every output line must be the input line with blanks inserted only directly after the key's ':' - which in "
+      "every concrete replay is cross-checked with the real json.loads. 190 cases, each 'Confirmed over all paths'.")
